@@ -3084,6 +3084,11 @@ class Wallet(object):
                 })
 
         if not key_id:
+            # Groups without unspent outputs are not in balance_list: reset the selected entries first
+            for b in self._balances:
+                if (network is None or b['network'] == network) and \
+                        (account_id is None or b['account_id'] == account_id):
+                    b['balance'] = 0
             for bl in balance_list:
                 bl_item = [b for b in self._balances if
                            b['network'] == bl['network'] and b['account_id'] == bl['account_id']]
